@@ -146,8 +146,10 @@ class CacheMachine(RuleBasedStateMachine):
         if STATS is not None:
             STATS.fail(key, list(self.history), f"step {self.history[-1]}: {detail}")
 
-    @rule(si=st.sampled_from([0, 0, 0, 0, 0, 1, 2, 3, 4, 4, 5, 6]), who=st.sampled_from(["same", "same", "restart", "second", "other", "other", "override"]), behaviour=st.sampled_from(["newer", "newer", "same", "older", "uptodate", "uptodate", "errstatus", "garbage", "transport"]))
+    @rule(si=st.sampled_from([0, 0, 0, 0, 0, 1, 2, 3, 4, 4, 5, 6]), who=st.sampled_from(["same", "same", "restart", "second", "other", "other", "override", "scan"]), behaviour=st.sampled_from(["newer", "newer", "same", "older", "uptodate", "uptodate", "errstatus", "garbage", "transport"]))
     def request(self, si, who, behaviour):
+        if who == "scan":
+            return _scan_rule(self, si, {"same": "uptodate", "errstatus": "garbage", "transport": "garbage"}.get(behaviour, behaviour))
         si = self.servers_allowed[si % len(self.servers_allowed)]
         server = SERVERS[si]
         held = self.held.get(si)
@@ -275,6 +277,79 @@ class CacheMachine(RuleBasedStateMachine):
                 self.fail("cache-does-not-hold-newest", f"files {sorted(files)}; none equals the newest delivered profile of server {si}")
 
 
+def _scan_rule(self, si, behaviour):
+    """ofxget's scan: some thirty profile requests (every version x format) to one server, issued concurrently through one
+    client.  A history of profile requests like any other: each asks with the date of the profile held at that moment,
+    a reply that is not newer never replaces the cache, and afterwards the cache holds the newest profile delivered."""
+    import contextlib
+    import io
+
+    from ofxtools.scripts import ofxget
+
+    si = self.servers_allowed[si % len(self.servers_allowed)]
+    server = SERVERS[si]
+    held = self.held.get(si)
+    if behaviour in ("same", "older", "uptodate") and held is None:
+        behaviour = "newer"
+    step = ["scan", si, behaviour]
+    self.history.append(step)
+    self.flags.add("scan (concurrent profile requests)")
+    served = None
+    if behaviour == "newer":
+        y = self.maxyear.get(si, server["base"]) + 1
+        self.maxyear[si] = y
+        served = profile_bytes(server, y, variant=y % 3)
+        self.plan = ("ok", served)
+    elif behaviour == "older":
+        served = profile_bytes(server, held[1] - 1, variant=2)
+        self.plan = ("ok", served)
+    elif behaviour == "uptodate":
+        self.plan = ("ok", F.profile_response({}, None, code=1))
+    else:
+        self.plan = ("ok", b"<html><body>Service temporarily unavailable</body></html>")
+    if held is not None:
+        self.flags.add("write-then-(uptodate|failure|restart)")
+    before = len(self.env.net.log)
+    files_before = profrs_files(self.env.tmp)
+    try:
+        with contextlib.redirect_stdout(io.StringIO()):
+            ofxget.scan_profile({"dryrun": False, "write": False, "url": server["url"], "org": server["org"], "fid": server["fid"], "useragent": None, "nonewfileuid": False})
+    except Exception:
+        # the scan's own reporting (and its refusal of older profiles) may raise: only the traffic and the cache are judged
+        self.flags.add("scan ended with an exception")
+    new = self.env.net.log[before:]
+    if not new:
+        self.fail("scan-sent-nothing", "")
+    allowed = {year_us(held[1]) if held is not None else PLACEHOLDER_US}
+    if behaviour == "newer":
+        allowed.add(year_us(self.maxyear[si]))  # requests issued after the first reply was cached
+    for rec in new:
+        if rec["url"] != server["url"]:
+            self.fail("profile-request-sent-to-another-server", f"scan of {server['url']} sent to {rec['url']}")
+            break
+        try:
+            asked = request_dtprofup(rec)
+        except Exception as e:
+            self.fail("profile-request-unreadable", repr(e))
+            break
+        if asked not in allowed:
+            self.fail("asked-with-wrong-date", f"scan: DTPROFUP {asked}, the profile held then has one of {sorted(allowed)}")
+            break
+    if behaviour == "newer":
+        self.held[si] = (served, self.maxyear[si])
+    files = profrs_files(self.env.tmp)
+    if behaviour != "newer" and files != files_before:
+        self.fail("failed-call-changed-cache" if behaviour != "older" else "older-profile-returned", f"scan with {behaviour} replies: {sorted(files_before)} -> {sorted(files)}")
+    h2 = self.held.get(si)
+    if h2 is not None and not [n for n, d in files.items() if d == h2[0]]:
+        self.fail("cache-does-not-hold-newest", f"after a scan with {behaviour} replies: no file equals the newest delivered profile of server {si}")
+    for name, data in files.items():
+        if data not in {h[0] for h in self.held.values()}:
+            self.fail("cache-not-a-complete-profile", f"after scan: {name}: {len(data)} bytes matching no delivered profile")
+
+
+
+
 def replay_history(case, servers_allowed=tuple(range(7))):
     global STATS
     saved = STATS
@@ -284,6 +359,12 @@ def replay_history(case, servers_allowed=tuple(range(7))):
         m.servers_allowed = tuple(servers_allowed)
         try:
             for stp in case:
+                if stp[0] == "scan":
+                    idx = m.servers_allowed.index(stp[1]) if stp[1] in m.servers_allowed else 0
+                    _scan_rule(m, idx, stp[2])
+                    continue
+                if stp[2] == "scan":
+                    continue
                 _, si, who, behaviour = stp
                 idx = m.servers_allowed.index(si) if si in m.servers_allowed else 0
                 m.request(idx, who, behaviour)
